@@ -10,5 +10,5 @@ for d in sorted(glob.glob("/verif/seeded/%s-m*" % pid)):
     known.append(m["summary"][:300])
 base = os.popen("python3 /verif/tools/mutprompt.py %s" % pid).read().replace("/tmp/mut-" + pid, wt)
 extra = "\n\nAlready known changes for this property (do NOT repeat these or close variants; pick other functions, other clauses of the property, other packages where possible):\n" + "\n".join("- " + k for k in known)
-extra += "\n\nPut a stub `out/go.mod` (content: `module out`) in the out directory so that `go build ./...` ignores the demo files stored there. Prefer changes whose effect needs an input, configuration or sequence that a routine test sweep over 'typical' values would NOT contain (boundary values, rarely used options, particular orderings, a second request after a first one, error paths of helpers)."
+extra += "\n\nPut a stub `out/go.mod` (content: `module out`) in the out directory so that `go build ./...` ignores the demo files stored there. Do not use `git stash` (the scratch worktrees share one stash); to undo and redo your change use `git diff > /tmp/x.diff; git apply -R /tmp/x.diff; git apply /tmp/x.diff`. Prefer changes whose effect needs an input, configuration or sequence that a routine test sweep over 'typical' values would NOT contain (boundary values, rarely used options, particular orderings, a second request after a first one, error paths of helpers)."
 print(base + extra)
